@@ -520,7 +520,9 @@ def _field_assigns(stmts: List[ast.stmt]) -> Dict[str, ast.AST]:
 def check_comm(prog: Program, res: Result, sch: Schema) -> None:
     fi = prog.func(f"{TRAIN}:get_aug_config")
     res.touch(fi)
-    loops = [n for n in walk_function(fi.node) if isinstance(n, ast.For)]
+    # `for name in NAMES: if i == name: setattr(cfg, f"{name}_p", v); break` is the if/elif chain over NAMES
+    fn_u = astq.unroll_literal_loops(fi.node, consts=astq.module_consts(fi.module.tree))
+    loops = [n for n in walk_function(fn_u) if isinstance(n, ast.For)]
     res.ob("C20-comm", len(loops) == 2, fi.qualname, "two list dispatch loops", f"{len(loops)} dispatch loops in get_aug_config", fi.where)
     seen_names: Set[str] = set()
     for loop in loops:
@@ -612,6 +614,14 @@ def _validator_target(prog: Program, cls: str, fld, sch: Schema) -> Optional[str
         if calls:
             return norm(calls[0].func).split(".")[-1]
         return None
+    if isinstance(v, ast.FunctionDef):
+        # @field.validator method (self, attribute, value): the validator it hands the value to, unconditionally
+        params = [a.arg for a in v.args.args]
+        body = [b for b in v.body if not (isinstance(b, ast.Expr) and isinstance(b.value, ast.Constant))]
+        for b in body:
+            if isinstance(b, (ast.Expr, ast.Return)) and isinstance(b.value, ast.Call) and len(params) == 3 and [norm(a) for a in b.value.args] == [params[2]]:
+                return norm(b.value.func).split(".")[-1]
+        return v.name
     name = norm(v).split(".")[-1]
     # a module-level function that only forwards to a method of the instance: validator(instance, attribute, value) -> instance.m(value)
     ci = sch.class_info.get(cls)
